@@ -60,27 +60,27 @@ PROPS = {
             "design_ref": "DESIGN.md §3 C05"},
     "C06": {"streams": [S("pipeline", 1200, 60000, ["yearly", "status-crash"]), S("reports", 30, 1500, ["taxsheet", "summary", "status"])], "rule": PIPE_RULE + "; reports stream for C06: the Gain / Loss Summary table and the Summary sheet of the real rp2_full_report.ods",
             "assumptions": ["hypothesis LocalDatesMonotone (finding F6): local calendar dates never decrease along the instant order"],
-            "technique": "Lean 4 proof: insertion-ordered group-by yields one line per key, each the in-order sum of exactly its fractions; correspondence of yearly lines",
+            "technique": "Lean 4 proof: insertion-ordered group-by yields one line per key, each the in-order sum of exactly its fractions; EntrySetIterator.__next__ translated from the source on every run = the model's window (to-date cut); correspondence of yearly lines",
             "text": "Theorem lines_are_sums (group_spec); yearly lines of the real ComputedData compared with the model and with an independent group-by oracle.",
             "design_ref": "DESIGN.md §3 C06"},
     "C07": {"streams": [S("pipeline", 1200, 60000, ["balances", "status-balance", "status-crash"]), S("reports", 40, 2000, ["taxsheet", "inout", "status"])], "rule": PIPE_RULE + "; C07 reports stream: the Account Balances table and the In-Flow rows (Sent/Sold percentage) of the real file",
             "assumptions": ["hypotheses LocalDatesMonotone (F6), OutWithFeeConsistent, FeeFiatVisible (F12)"],
-            "technique": "Lean 4 proof: balance after any prefix = initial + acquired + received - sent per account; correspondence of BalanceSet; reconciliation oracle",
+            "technique": "Lean 4 proof: balance after any prefix = initial + acquired + received - sent per account; the replay loop of BalanceSet.__init__ translated from the source on every run (dictionary updates, break at the to-date, Balance rows) simulates the model's balStep (exactness of the decimal on the 1e-11 grid); correspondence of BalanceSet; reconciliation oracle",
             "text": "Theorem final_is_flows for every transaction list and account; balances of the real BalanceSet compared with the model; oracle recomputes flows and lot reconciliation.",
             "design_ref": "DESIGN.md §3 C07"},
     "C08": {"streams": [S("pipeline", 1200, 60000, ["balances", "status-balance", "status-crash"])], "rule": PIPE_RULE + "; C08: 25% overdrafts by 1..11 grid units and by 1 unit around the tolerance",
             "assumptions": ["hypothesis LocalDatesMonotone (F6) for the to-date cut"],
-            "technique": "Lean 4 proof: replay fails iff some account is below tolerance after some chronological prefix (checking only debited accounts suffices); -n never rejects",
+            "technique": "Lean 4 proof: replay fails iff some account is below tolerance after some chronological prefix (checking only debited accounts suffices); -n never rejects; the overdraft test as written in the source (is_equal_within_precision at 10 decimals and RP2Decimal <) translated on every run and proved equal to the model's tolerance, round by round",
             "text": "Theorems rejected_iff_some_prefix_overdrawn and allowed_never_rejects; overdrawn status and account compared with the model; brute-force prefix oracle.",
             "design_ref": "DESIGN.md §3 C08"},
     "C09": {"streams": [S("pipeline", 800, 40000, ["fractions", "figures", "long", "numbering", "yearly", "balances", "price", "sums", "status-engine", "status-crash"]), S("cli", 30, 1000, ["exit", "detail", "model"])], "rule": PIPE_RULE + "; " + CLI_RULE,
             "assumptions": ["hypothesis LocalDatesMonotone (F6)"],
-            "technique": "Lean 4 proof: prefix theorem on the greedy spec (later lots/events cannot change earlier fractions) carried to the engine by refinement; correspondence on (history, truncated history) pairs",
+            "technique": "Lean 4 proof: prefix theorem on the greedy spec (later lots/events cannot change earlier fractions) carried to the engine by refinement; EntrySetIterator.__next__ translated from the source on every run = the model's window; correspondence on (history, truncated history) pairs",
             "text": "Theorem earlier_fractions_unchanged (runS_prefix); oracle compares the to-date-limited run with the run on the truncated history, on the real code.",
             "design_ref": "DESIGN.md §3 C09"},
     "C10": {"streams": [S("pipeline", 800, 40000, ["views", "fractions", "figures", "numbering", "yearly", "balances", "price", "sums", "status-crash"]), S("cli", 40, 1200, ["exit", "detail", "inout", "model"])], "rule": PIPE_RULE + "; " + CLI_RULE,
             "assumptions": ["hypothesis LocalDatesMonotone (F6)"],
-            "technique": "Lean 4 proof: a window view is the filter by [from,to] under monotone local dates; correspondence of ComputedData for random windows",
+            "technique": "Lean 4 proof: a window view is the filter by [from,to] under monotone local dates; EntrySetIterator.__next__ translated from the source on every run = the model's window; correspondence of ComputedData for random windows",
             "text": "Theorem view_is_filter; filtered ComputedData compared with the model; oracle compares filtered run with the filter of the unfiltered run on the real code.",
             "design_ref": "DESIGN.md §3 C10"},
     "C11": {"streams": [S("parser", 400, 20000, ["fields", "accept-reject"])], "rule": PARSER_RULE, "assumptions": ["dateutil's string parsing is an oracle supplied by the harness (not modelled)"],
